@@ -246,6 +246,19 @@ func (p c13) exec(c *core.Case) (*c13Result, error) {
 			return nil, err
 		}
 		refs[i] = ref
+		// "repeating a history gives byte-identical output": the solo run, repeated at once
+		if again, err2 := c13Reference(&c.Tasks[i]); err2 == nil && res.vio == nil {
+			t := &c.Tasks[i]
+			if !bytes.Equal(again.bytes, ref.bytes) {
+				res.vio = &core.Violation{Prop: "C13", Sig: "C13/nondeterministic/writer", Case: c,
+					Detail: fmt.Sprintf("task %d (writer %s): running the same history alone twice in a row gives different bytes (first difference at offset %d)", i, t.W.HistoryString(), firstDiff(again.bytes, ref.bytes))}
+			} else if t.Kind == "reader" {
+				if ok, why := core.EqualRecs(again.read.Recs, ref.read.Recs); !ok || again.read.Reported() != ref.read.Reported() {
+					res.vio = &core.Violation{Prop: "C13", Sig: "C13/nondeterministic/reader", Case: c,
+						Detail: fmt.Sprintf("task %d (reader of %s): reading the same file alone twice in a row gives different results: %s", i, t.W.HistoryString(), why)}
+				}
+			}
+		}
 		wl = core.Mix(wl, core.HashString(c.Tasks[i].Kind+c.Tasks[i].W.HistoryString()), core.HashBytes(ref.bytes), core.HashBytes(ref.file))
 	}
 	res.wlDigest = wl
@@ -256,6 +269,10 @@ func (p c13) exec(c *core.Case) (*c13Result, error) {
 			return nil, err
 		}
 		priorFiles = append(priorFiles, ref.file)
+	}
+
+	if res.vio != nil {
+		return res, nil
 	}
 
 	// phase 2: prior history on the simulated pool
